@@ -416,7 +416,7 @@ package store
 //@ pure hashAt(s, h) = ite(dsHas[kHeight(h)], dsVal[kHeight(h)], s.pending.headers[h].Hash())
 
 //@ func (*Store).deleteSingle(s, ctx, height, onDelete)
-//@   props C08, C14
+//@   props C08, C14, C06
 //@   unreachable return2 : datastore read errors other than ErrNotFound are not modelled (store.spec)
 //@   requires storeINV(s) && !isBatch(s.ds)
 //@   ghost herr error := result0 of call deleteFn #0
@@ -427,6 +427,7 @@ package store
 //@   ensures [C14] handler-error-keeps-header: called(herr) && herr != nil ==> result != nil && dsHas == old(dsHas) && dsDeletes == old(dsDeletes) && unchanged("MH_Int_Hdr_has")
 //@   ensures [C08] removed: result == nil ==> !dsHas[kHeight(height)] && !dsHas[kHash(old(hashAt(s, height)))] && !icHas[height] && !hcHas[hexStr(old(hashAt(s, height)))] && !has(s.pending.headers, height)
 //@   ensures [C08] others-untouched: forall k Key @ dsHas[k] :: k != kHeight(height) && k != kHash(old(hashAt(s, height))) ==> (dsHas[k] <==> old(dsHas)[k])
+//@   ensures [C06] failed-height-intact: result != nil && old(dsHas)[kHeight(height)] ==> dsHas[kHeight(height)] && (dsHas[kHash(old(hashAt(s, height)))] <==> old(dsHas)[kHash(old(hashAt(s, height)))]) -- a deletion that fails must not leave a height that is indexed but unreadable (a hole below Head)
 //@   ensures [C08] pending-others-untouched: forall h uint64 @ has(s.pending.headers, h) :: h != height ==> (has(s.pending.headers, h) <==> old(has(s.pending.headers, h)))
 //@   ensures [C08] missing-means-absent: result != nil && errors.Is(result, errMissingHeader) ==> !old(dsHas)[kHeight(height)] && !old(has(s.pending.headers, height)) && !has(s.pending.headers, height) && dsHas == old(dsHas) && hCalls == old(hCalls)
 //@   ensures [C08] index-cache-only-shrinks: forall k uint64 @ icHas[k] :: icHas[k] ==> old(icHas)[k]
